@@ -43,10 +43,10 @@ def _ranges(pred: typing.Callable[[str], bool]) -> typing.List[typing.Tuple[int,
 
 
 @functools.lru_cache(None)
-def category_ranges(cat: str) -> typing.Tuple[typing.Tuple[int, int], ...]:
+def category_ranges(cat: str, ascii_only: bool = False) -> typing.Tuple[typing.Tuple[int, int], ...]:
     """Code-point ranges (<= U+2FFFF) of a regex category as CPython's `re` defines it for str patterns."""
     rx = {"space": r"\s", "digit": r"\d", "word": r"\w"}[cat]
-    c = re.compile(rx)
+    c = re.compile(rx, re.ASCII if ascii_only else 0)
     return tuple(_ranges(lambda ch: c.fullmatch(ch) is not None))
 
 
@@ -91,7 +91,7 @@ def _negate(rs: typing.List[typing.Tuple[int, int]]) -> typing.List[typing.Tuple
     return out
 
 
-def class_ranges(items, ignorecase: bool = False) -> typing.List[typing.Tuple[int, int]]:
+def class_ranges(items, ignorecase: bool = False, ascii_only: bool = False) -> typing.List[typing.Tuple[int, int]]:
     rs: typing.List[typing.Tuple[int, int]] = []
     neg = False
     for op, av in items:
@@ -105,10 +105,10 @@ def class_ranges(items, ignorecase: bool = False) -> typing.List[typing.Tuple[in
             name = str(av).lower()
             for cat in ("space", "digit", "word"):
                 if name.endswith("category_" + cat):
-                    rs.extend(category_ranges(cat))
+                    rs.extend(category_ranges(cat, ascii_only))
                     break
                 if name.endswith("category_not_" + cat):
-                    rs.extend(_negate(list(category_ranges(cat))))
+                    rs.extend(_negate(list(category_ranges(cat, ascii_only))))
                     break
             else:
                 raise RegexOutOfSubset(f"category {av}")
@@ -140,6 +140,7 @@ def _seq_to_re(seq, flags: int, at_start: bool, at_end: bool) -> str:
     items = list(seq)
     parts = []
     ic = bool(flags & re.IGNORECASE)
+    asc = bool(flags & re.ASCII)
     for idx, (op, av) in enumerate(items):
         if op is sre_c.LITERAL:
             if ic:
@@ -154,7 +155,7 @@ def _seq_to_re(seq, flags: int, at_start: bool, at_end: bool) -> str:
             else:
                 parts.append(ranges_to_re(_negate([(10, 10)])))
         elif op is sre_c.IN:
-            parts.append(ranges_to_re(class_ranges(av, ic)))
+            parts.append(ranges_to_re(class_ranges(av, ic, asc)))
         elif op is sre_c.BRANCH:
             parts.append(app("re.union", *[_seq_to_re(b, flags, False, False) for b in av[1]]) if len(av[1]) > 1 else _seq_to_re(av[1][0], flags, False, False))
         elif op is sre_c.SUBPATTERN:
@@ -244,7 +245,7 @@ def _class_plus_dollar(pattern: str, flags: int):
         lo, hi, sub = items[0][1]
         sub = list(sub)
         if lo == 1 and hi is sre_c.MAXREPEAT and len(sub) == 1 and sub[0][0] is sre_c.IN and not flags & re.MULTILINE:
-            return class_ranges(sub[0][1])
+            return class_ranges(sub[0][1], bool(flags & re.IGNORECASE), bool(flags & re.ASCII))
     return None
 
 
@@ -257,9 +258,7 @@ def search_contract(it, pattern: str, flags, s, pos):
     """
     from .epy import OutOfSubset, VBool, VInt, VNone, VObj, VOpt, VStr
 
-    fl = 0
-    if flags == "MULTILINE":
-        fl = re.MULTILINE
+    fl = int(flags or 0)
     ctx = it.ctx
     if not isinstance(s, VStr):
         raise OutOfSubset("search subject")
